@@ -374,3 +374,17 @@ pub(crate) fn counting_ring(start_len: usize) -> RingBuffer {
 impl RingBuffer {
     pub(crate) fn verif_add_tail(&mut self, n: usize) { self.tail += n; }
 }
+
+// ---------------------------------------------------------------- S13: contract model of extend_from_within_unchecked
+pub(crate) fn efw_model(rb: &mut RingBuffer, start: usize, len: usize) {
+    assert!(start + len <= rb.len(), "copy-from-within reads beyond the data (documented precondition 1)");
+    assert!(rb.free() >= len, "copy-from-within without reserved space (documented precondition 2)");
+    let mut k = 0;
+    while k < len {
+        let s = (rb.head + start + k) % rb.cap;
+        let d = (rb.tail + k) % rb.cap;
+        unsafe { *rb.buf.as_ptr().add(d) = *rb.buf.as_ptr().add(s); }
+        k += 1;
+    }
+    rb.tail = (rb.tail + len) % rb.cap;
+}
